@@ -19,6 +19,7 @@ WITNESS = {
     "argmin": "minmax", "argmax": "minmax", "min": "minmax", "max": "minmax",
     "count_eq": "deviation", "count_neq": "deviation", "sq_l2_dist": "deviation", "l1_dist": "deviation", "linf_dist": "deviation",
     "Histogram::add_observation": "histogram", "Histogram::new": "histogram",
+    "weighted_sum": "means", "weighted_mean": "means", "mean": "means",
     "EquiSpaced::n_bins": "strategies",
     "EquiSpaced::build": "strategies",
     "EquiSpaced::new": "strategies",
@@ -99,7 +100,7 @@ PROPS = {
         "level_note": "bounded: axis lengths <= 2, ranks <= 3; value-independence of the guards is by inspection of the guard expressions (len/shape/q comparisons), not proved; strategies' EmptyInput/Strategy mapping is exercised by enum:strategies (C12)",
         "technique": "exhaustive bounded decision table on the real crate + Verus contract on EquiSpaced::new",
         "design_ref": "DESIGN.md 4 (C17)",
-        "verus": [("equispaced", "N"), ("minmax", "N"), ("deviation", "N")],
+        "verus": [("equispaced", "N"), ("minmax", "N"), ("deviation", "N"), ("means", "N")],
         "enum": [{"name": "errors"}],
         "assumptions": [A_ENUM, A_VERUS, A_EXTRACT, BOUNDED_NOTE],
         "not_decided": ["shapes with an axis longer than 2 or rank above 3"],
@@ -210,14 +211,15 @@ PROPS.update({
         "rule": "one case per (element type, shape, content, layout); non-trivial = at least 2 elements",
     },
     "C06": {
-        "level": "exploration",
-        "level_text": "integer clause: mean, weighted_sum, weighted_mean and the per-axis forms are compared with exact i64 arithmetic and the type's own division, data and weights in different memory layouts (pairing by logical index), per-axis results with the whole-array routine per lane. The bodies are iterator/closure chains (sum, zip+fold, map_axis) outside Verus. Float clause: only small-integer-valued data (exact sums) and a 1e-12 relative comparison of harmonic/geometric mean with their definitions",
-        "level_note": "bounded: i64/i32 data over {-9,0,4,100}, weights {0,1,3}, <= 3 elements exhaustively and sampled above, shapes up to 3-D, 9 layout pairings. The forward-error bound for floats (c*u*sum|terms|) is NOT decided: Verus has no float semantics and CBMC's does not scale past 2-3 symbolic multiplications",
-        "technique": "bounded enumeration against exact integer arithmetic on the real crate",
-        "design_ref": "DESIGN.md 4 (C06)",
+        "level": "proof",
+        "level_text": "Verus discharges on the extracted bodies of weighted_sum, weighted_mean and mean (src/summary_statistics/means.rs), generically in the element type with its own operators (uninterpreted, deterministic): weighted_sum returns an error exactly when the shapes differ (also for empty input) and otherwise zero + d_0*w_0 + d_1*w_1 + ... with data and weights paired by logical index in logical order, whatever the two memory layouts (the zip/fold closure is annotated with its step relation and checked against its body; a proved lemma turns the fold trace into a left fold); weighted_mean is EmptyInput for empty data, an error for different shapes, else weighted_sum divided by the sum of the weights with the type's own division; mean is EmptyInput for empty data, else (sum of all elements) / n with the type's own division. Integer exactness of the underlying machine arithmetic, the per-axis forms (map_axis closures) and harmonic/geometric mean are compared with exact i64 arithmetic / their definitions on the real crate",
+        "level_note": "trusted: A-ND n-D (iter() yields the elements in logical order, Iterator::zip pairs position by position, Iterator::fold goes left to right, sum() adds every element once in an unspecified order, equal shapes have equally many elements), A-NUM (generic Add/Mul/Div/Zero/FromPrimitive deterministic and defined for the operands), rewrite R9 with a binding prefix for the destructuring closure parameters `|acc, (&d, &w)|`. NOT decided: floating-point accuracy (forward error bound) of every routine; per-axis forms and harmonic/geometric mean are bounded only (enum:means: i64/i32 over {-9,0,4,100}, weights {0,1,3}, <= 3 elements exhaustively and sampled above, shapes up to 3-D, 9 layout pairings)",
+        "technique": "Verus contracts on the extracted mean / weighted_sum / weighted_mean bodies (closure step relation + fold-trace lemma); bounded enumeration against exact integer arithmetic for the rest",
+        "design_ref": "DESIGN.md 4 (C06), 8a",
+        "verus": [("means", "N")],
         "enum": [{"name": "means"}],
-        "assumptions": [A_ENUM, BOUNDED_NOTE],
-        "not_decided": ["floating-point accuracy of mean/weighted_sum/weighted_mean/harmonic_mean/geometric_mean (rounding-error analysis)"],
+        "assumptions": [A_VERUS, A_EXTRACT, A_ENUM, "A-ND (n-D) iter/zip/fold/sum as stated in shim/means.rs", "A-NUM: generic arithmetic is deterministic; machine arithmetic of the concrete element type is not interpreted"],
+        "not_decided": ["floating-point accuracy of mean/weighted_sum/weighted_mean/harmonic_mean/geometric_mean (rounding-error analysis)", "per-axis forms and harmonic/geometric mean beyond the enumerated inputs"],
         "rule": "one case per (shape, data, weights, layout pair) or (axis, axis weights); non-trivial = at least 2 elements",
     },
     "C09": {
@@ -251,7 +253,7 @@ PROPS.update({
         "level_note": "bounded: enum:layouts - random integer-valued data, shapes 1-D..4-D (<= 16 elements), F-order / stepped-in-parent / reversed axes / embedded at an offset, owned/view/shared/copy-on-write, static vs dynamic dimension; enum:nanview. Float sums under different summation orders: only exactly-representable data",
         "technique": "layout-free trusted interface in the Verus shim + bounded pairwise enumeration on the real crate",
         "design_ref": "DESIGN.md 4 (C20)",
-        "verus": [("nan", "N"), ("minmax", "N"), ("bins", "N"), ("deviation", "N")],
+        "verus": [("nan", "N"), ("minmax", "N"), ("bins", "N"), ("deviation", "N"), ("means", "N")],
         "enum": [{"name": "layouts"}, {"name": "nanview", "abort_props": ["C04"]}],
         "assumptions": [A_ND, A_VERUS, A_EXTRACT, A_ENUM, BOUNDED_NOTE],
         "not_decided": ["floating-point sums whose value depends on summation order (roundoff bound)"],
